@@ -246,7 +246,8 @@ macro_rules! wide_col {
         impl WideColumnValue<$col> for $v2 { fn discriminant() -> $d { let d = unsafe { D2 }; ($mk2)(d) } }
     };
 }
-// symbolic discriminants through D1/D2
+// symbolic discriminants through D1/D2 (three instances with (u64,u64) keys / (u64,u8) discriminants were
+// removed: 20+ minutes each and time-outs under load)
 wide_col!(WSufU16, WSufU16A, WSufU16B, u16, u16, DiscriminantEncoding::Suffixed, |d: u16| d, |d: u16| d);
 wide_col!(WPreU16, WPreU16A, WPreU16B, u16, u16, DiscriminantEncoding::Prefixed, |d: u16| d, |d: u16| d);
 wide_col!(WSufPair, WSufPairA, WSufPairB, (u64, u64), u8, DiscriminantEncoding::Suffixed, |d: u16| d as u8, |d: u16| d as u8);
@@ -281,9 +282,6 @@ wide!(c11_q_wide_rocks_suffixed_u16, rocks, WSufU16, WSufU16A, WSufU16B, u16, 12
 wide!(c11_q_wide_rocks_prefixed_u16, rocks, WPreU16, WPreU16A, WPreU16B, u16, 12, 0xFFFFu16);
 wide!(c11_q_wide_fjall_suffixed_u16, fjall, WSufU16, WSufU16A, WSufU16B, u16, 12, 0xFFFFu16);
 wide!(c11_q_wide_fjall_prefixed_u16, fjall, WPreU16, WPreU16A, WPreU16B, u16, 12, 0xFFFFu16);
-wide!(c11_t_wide_rocks_suffixed_pair, rocks, WSufPair, WSufPairA, WSufPairB, (u64, u64), 26, 0xFFu16);
-wide!(c11_t_wide_rocks_prefixed_pair, rocks, WPrePair, WPrePairA, WPrePairB, u64, 26, 0xFFu16);
-wide!(c11_t_wide_fjall_suffixed_pair, fjall, WSufPair, WSufPairA, WSufPairB, (u64, u64), 26, 0xFFu16);
 wide!(c11_q_wide_rocks_unit_key, rocks, WUnitKey, WUnitKeyA, WUnitKeyB, (), 8, 0xFFFFu16);
 wide!(c11_q_wide_fjall_unit_key, fjall, WUnitKey, WUnitKeyA, WUnitKeyB, (), 8, 0xFFFFu16);
 wide!(c11_q_wide_fjall_unit_key_suffixed, fjall, WUnitKeySuf, WUnitKeySufA, WUnitKeySufB, (), 8, 0xFFFFu16);
